@@ -14,7 +14,7 @@ Local Open Scope string_scope.
 Theorem C02_candidates_per_context_node_in_axis_order : forall en a t preds p l,
   step_from en a t preds p = Ok l ->
   exists rt cands,
-    resolve_test en t = Ok rt /\
+    resolve_test en a t = Ok rt /\
     cands = filter (test_node (e_doc en) (principal_of a) rt) (select (e_doc en) a [p]) /\
     apply_preds en preds cands = Ok l /\
     (if axis_reverse a then StronglySorted (pos_gt (e_doc en)) cands
